@@ -125,6 +125,48 @@ def meetTuple (vr : Variant) (rec : Table → Nat → Nat → TRes) (T : Table) 
         some (r.1.registerType (.tuple r.2))
   | _, _ => some (T, never)
 
+/-- the field loop of the partial arm of `intersect_pair` over the LEFT operand's fields: a field the
+right operand also names (`find`: its first field of that label) gets the intersection of the two field
+types; inner `none` = "that intersection is never" (early `return never`; registrations persist). -/
+def meetPartFields (rec : Table → Nat → Nat → TRes) (never : Nat) (fields2 : List (Name × Nat)) :
+    Table → List (Name × Nat) → Option (Table × Option (List (Name × Nat)))
+  | T, [] => some (T, some [])
+  | T, f1 :: rest =>
+    match fields2.find? (fun f2 => f2.1 == f1.1) with
+    | some f2 =>
+      match rec T f1.2 f2.2 with
+      | none => none
+      | some (T1, both) =>
+        if both = never then some (T1, none)
+        else
+          match meetPartFields rec never fields2 T1 rest with
+          | none => none
+          | some (T2, none) => some (T2, none)
+          | some (T2, some fs) => some (T2, some ((f1.1, both) :: fs))
+    | none =>
+      match meetPartFields rec never fields2 T rest with
+      | none => none
+      | some (T2, none) => some (T2, none)
+      | some (T2, some fs) => some (T2, some (f1 :: fs))
+
+/-- `name1.or_else(|| name2)` -/
+def orName : Option Name → Option Name → Option Name
+  | some n, _ => some n
+  | none, n2 => n2
+
+/-- the partial-vs-partial arm of `intersect_pair` (notes/C02-fixes/15): the partial type with the
+fields of both, the left operand's first, then the right operand's new ones. -/
+def meetPart (rec : Table → Nat → Nat → TRes) (T : Table) (never : Nat) (n1 : Option Name)
+    (fs1 : List (Name × Nat)) (n2 : Option Name) (fs2 : List (Name × Nat)) : TRes :=
+  if n1.isSome ∧ n2.isSome ∧ n1 ≠ n2 then some (T, never)
+  else
+    match meetPartFields rec never fs2 T fs1 with
+    | none => none
+    | some (T1, none) => some (T1, never)
+    | some (T1, some fields) =>
+      some (T1.registerType
+        (.part (orName n1 n2) (fields ++ fs2.filter (fun f2 => !fs1.any (fun f1 => f1.1 == f2.1)))))
+
 /-- the `_` arm of `intersect_pair`: keep the left operand iff the two overlap. -/
 def meetFallback (rf : Nat) (T : Table) (never a b : Nat) : TRes :=
   match typesOverlap T rf a b with
@@ -151,6 +193,9 @@ def intersectPair (vr : Variant) (rf : Nat) (rec : Table → Nat → Nat → TRe
       | .binary, .binary => some (T, a)
       | .reference, .reference => some (T, a)
       | .tuple id1, .tuple id2 => meetTuple vr rec T never id1 id2
+      | .part n1 fs1, .part n2 fs2 =>
+        if vr.partialIntersectExact then meetPart rec T never n1 fs1 n2 fs2
+        else meetFallback rf T never a b
       | _, _ => meetFallback rf T never a b
     | _, _ => some (T, never)
 
